@@ -607,6 +607,37 @@ impl DBM {
         tx.commit()
     }
 
+    /// Stores a misbehaving proof about an appointment whose receipt is already in the database.
+    ///
+    /// The stored receipt is overwritten with the one that proves the misbehavior, so the proof can be built back from the database.
+    pub fn store_misbehaving_proof_over_receipt(
+        &mut self,
+        tower_id: TowerId,
+        proof: &MisbehaviorProof,
+    ) -> Result<(), SqliteError> {
+        let tx = self.get_mut_connection().transaction().unwrap();
+        tx.execute(
+            "UPDATE appointment_receipts SET start_block=?3, user_signature=?4, tower_signature=?5 WHERE tower_id=?1 AND locator=?2",
+            params![
+                tower_id.to_vec(),
+                proof.locator.to_vec(),
+                proof.appointment_receipt.start_block(),
+                proof.appointment_receipt.user_signature(),
+                proof.appointment_receipt.signature()
+            ],
+        )?;
+        tx.execute(
+            "INSERT INTO misbehaving_proofs (tower_id, locator, recovered_id) VALUES (?1, ?2, ?3)",
+            params![
+                tower_id.to_vec(),
+                proof.locator.to_vec(),
+                proof.recovered_id.to_vec()
+            ],
+        )?;
+
+        tx.commit()
+    }
+
     /// Loads the misbehaving proof for a given tower from the database (if found).
     fn load_misbehaving_proof(&self, tower_id: TowerId) -> Option<MisbehaviorProof> {
         let mut misbehaving_stmt = self
@@ -647,7 +678,7 @@ impl DBM {
     }
 
     /// Checks whether a misbehaving proof exists for a given tower.
-    fn exists_misbehaving_proof(&self, tower_id: TowerId) -> bool {
+    pub fn exists_misbehaving_proof(&self, tower_id: TowerId) -> bool {
         let mut misbehaving_stmt = self
             .connection
             .prepare("SELECT tower_id FROM misbehaving_proofs WHERE tower_id = ?")
